@@ -35,6 +35,7 @@ func runC02(p *Program, r *Report) {
 	c02frag(p, r, "C02.frag")
 	c02rsv(p, r, "C02.rsv")
 	c02close(p, r, "C02.close")
+	c14side(p, r, "C02.side")
 }
 
 // emitterSites: call sites that operate on the connection's bufio.Writer or write to rwc.
